@@ -191,6 +191,14 @@ def run(ctx):
     table = [('typing', i, s) for i, s in G.typing_table()] + [('method', i, s) for i, s in G.method_table()]
     nprim = 12000 if thorough else 3000
     table += [('prim', i, 'x = ' + e) for i, e in G.prim_exprs(rng, nprim)]
+    # the documented methods / core functions of docs/yaml x arities 0..3 x argument types x keyword
+    # names (wrong arity, wrong types, every optional and keyword argument)
+    api = G.documented_api(REPO)
+    api_rows = G.api_rows(rng, api)
+    api_key = {}
+    for key, ident, lines in api_rows:
+        api_key[ident] = key
+        table.append(('api', ident, '\n'.join(lines)))
     singles = [G.P(s + "\nmessage('#r', x, '$')\n") for _, _, s in table]
     oom_table = 0
     if built:
@@ -211,14 +219,47 @@ def run(ctx):
             def some(kind, n):
                 rows = [r for r in badrows if r[0] == kind]
                 return rng.sample(rows, min(n, len(rows)))
-            badrows = [r for r in badrows if r[0] == 'typing'] + some('method', 500) + some('prim', 300)
-        for k, i, s in (badrows if thorough else rng.sample(badrows, min(nbad, len(badrows)))):
+            badrows = [r for r in badrows if r[0] == 'typing'] + some('method', 300) + some('prim', 300) + some('api', 400)
+        if not thorough:
+            # a sample of every kind, and of the documented API one rejected call per method
+            per = {}
+            for r in badrows:
+                if r[0] == 'api':
+                    per.setdefault(api_key[r[1]], []).append(r)
+            badrows = rng.sample([r for r in badrows if r[0] != 'api'], min(nbad, len(badrows))) + \
+                [rng.choice(per[k]) for k in sorted(per)]
+        run_bad = badrows
+        for k, i, s in badrows:
             # the rejected statement ends a generated valid program, so that the same meson run
             # also compares a few dozen ordinary statements
+            if thorough:
+                add('table-rejected', '%s: %s' % (k, i), G.P("message('#a', 1, '$')\n" + s + "\nmessage('#r', x, '$')\n"))
+                continue
             g = G.ProgGen(rng, max_depth=rng.choice([2, 3]))
             add('table-rejected', '%s: %s' % (k, i), g.program(rng.randint(5, 14), err=[s, "message('#r', x, '$')"], at_end=True))
+        # coverage of the documented API: modelled? compared on how many accepted / rejected calls?
+        cov = {}
+        for (ty, name), doc in sorted(api.items()):
+            cov['%s.%s' % (ty, name)] = {'documented_in': doc, 'modelled': name in G.MODELLED.get(ty, []),
+                                         'calls_generated': 0, 'accepted_compared': 0, 'rejected_generated': 0, 'rejected_compared': 0}
+        for (k, i, s), r in zip(table, single_out):
+            if k == 'api':
+                e = cov['%s.%s' % api_key[i]]
+                e['calls_generated'] += 1
+                if r['cls'] == 'OK':
+                    e['accepted_compared'] += 1
+                elif r['cls'] in ('ERR', 'PY'):
+                    e['rejected_generated'] += 1
+        for k, i, s in run_bad:
+            if k == 'api':
+                cov['%s.%s' % api_key[i]]['rejected_compared'] += 1
+        for fn in ('subdir', 'subproject'):
+            if 'function.' + fn in cov:
+                cov['function.' + fn]['note'] = 'needs build files: exercised by the corpus, the oracle laws and the random programs'
+        ctx.extra['documented_api_coverage'] = cov
+        ctx.extra['documented_api_not_modelled'] = sorted(k for k, v in cov.items() if not v['modelled'])
         ctx.extra['table'] = {'rows': len(table), 'accepted_by_model': len(okrows), 'rejected_by_model': nrej,
-                              'out_of_model': oom_table, 'rejected_run': len(badrows) if thorough else min(nbad, len(badrows)),
+                              'out_of_model': oom_table, 'rejected_run': len(run_bad),
                               'random_primitive_applications': nprim,
                               'exhaustive': False, 'exhaustive_typing_table': bool(thorough), 'exhaustive_accepted': True}
 
